@@ -155,7 +155,9 @@ def run(check, an: Analysis):
     if ok_scope and len(spawn) == 1:
         m = spawn[0]
         elt = m.elt
-        spawn_ok = all(_contains(withs[0], st) for st in m.stmts) and \
+        # (the empty list an append loop fills may be made before the scope is entered)
+        spawning = m.stmts[-1:] if m.kind == 'append-loop' else m.stmts
+        spawn_ok = all(_contains(withs[0], st) for st in spawning) and \
             isinstance(elt, ast.Call) and \
             ast.unparse(elt.func) == '%s.do' % scope_name and \
             [ast.unparse(a) for a in elt.args] == [m.var] and \
